@@ -143,6 +143,10 @@ def cases():
                    bounds="N=2 T=4; ModuleOutput over max_log_moneyness/max_moneyness, same hedger re-evaluated on every perturbed future"))
     cs.append(Case("list/vectorised/uf/module-over-running-max", nonanticipative_case(2, 4, "brownian", "lookback", ["module_output_max"], "uf",
                                                                         controls=True), encodes=enc, bounds="N=2 T=4"))
+    cs.append(Case("list/vectorised/uf/T2", nonanticipative_case(2, 2, "brownian", "european", ["log_moneyness", "time_to_maturity", "volatility"], "uf"), encodes=enc,
+                   bounds="N=2 T=2 (maturity == dt: a single hedging step, the position at the final index repeats it)"))
+    cs.append(Case("list/stepwise/uf/T2", nonanticipative_case(2, 2, "brownian", "european", ["log_moneyness", "time_to_maturity", "prev_hedge"], "uf"), encodes=enc,
+                   bounds="N=2 T=2"))
     cs.append(Case("naked", nonanticipative_case(1, 3, "brownian", "european", ["empty"], "naked"), encodes=enc, bounds="N=1 T=3"))
     for dk in ("european", "lookback", "european_binary", "american_binary"):
         xm = dk in ("european", "european_binary")  # analytic deltas: extended reals; autogreek deltas: exact reals with
